@@ -128,6 +128,56 @@ def _native_matrix(it, c, fn_name, parallel=False, threads=None, layout="ptrs", 
             b.free()
 
 
+def _native_two_sets(it, c, fn_name, nr, nc, noblock, lib=None):
+    """dtw_distances_(ndim_)matrices on TWO collections of different sizes: the first nr series as rows, the first
+    nc as columns (equal-length series), output buffer of exactly dtw_distances_length(block, nr, nc) elements.
+    With the case's block (re <= nr, ce <= nc), or without a block when the block is (0..nr) x (0..nc): both
+    select the same (row, column) pairs as the one-collection call the record is judged against."""
+    from . import native
+    lib = lib or native.lib("plain")
+    L = lib.L
+    nd = len(it["ser"][0][0])
+    st = lib.settings(c)
+    rb, re, cb, ce = (0, 0, 0, 0) if noblock else it["blk"]
+    blk = native.DTWBlock(rb, re, cb, ce, it["triu"])
+    length = L.dtw_distances_length(ctypes.byref(blk), nr, nc)
+    out = native.Buf(max(length, 0), fill=float("nan"))
+    allf = [x / it["S"] for s in it["ser"] for p in s for x in p]
+    mb = native.Buf(len(allf), fill=allf)
+    ln = len(it["ser"][0])
+    try:
+        f = getattr(L, fn_name)
+        if nd == 1 and "ndim" not in fn_name:
+            got = f(mb.ptr, nr, ln, mb.ptr, nc, ln, out.ptr, ctypes.byref(blk), st)
+        else:
+            got = f(mb.ptr, nr, ln, mb.ptr, nc, ln, nd, out.ptr, ctypes.byref(blk), st)
+        out.check(fn_name)
+        mb.check(fn_name)
+        if got != length:
+            return ["length-mismatch"]
+        return out.tolist()
+    finally:
+        out.free()
+        mb.free()
+
+
+def _two_set_routes(it, c, nd, compact):
+    if it["noblock"]:
+        return
+    rb, re, cb, ce = it["blk"]
+    n = it["n"]
+    fn = "dtw_distances_matrices" if nd == 1 else "dtw_distances_ndim_matrices"
+    sizes = {(re, ce), (n, ce), (re, n)}
+    for (nr, nc) in sorted(sizes):
+        if nr == nc == n:
+            continue
+        _compact(c, "native:%s[%d rows x %d columns]" % (fn, nr, nc),
+                 lambda: _native_two_sets(it, c, fn, nr, nc, False), compact)
+    if rb == 0 and cb == 0 and (re, ce) != (n, n):
+        _compact(c, "native:%s[%d rows x %d columns, no block]" % (fn, re, ce),
+                 lambda: _native_two_sets(it, c, fn, re, ce, True), compact)
+
+
 def run_c06(it):
     from dtaidistance import dtw, dtw_cc, dtw_ndim
     c = case_of(it)
@@ -180,6 +230,7 @@ def run_c06(it):
                      lambda: _native_matrix(it, c, "dtw_distances_matrix", layout="matrix"), compact)
             _compact(c, "native:dtw_distances_matrices",
                      lambda: _native_matrix(it, c, "dtw_distances_matrices", layout="matrix"), compact)
+            _two_set_routes(it, c, nd, compact)
         _compact(c, "native:dtw_distances_ptrs", lambda: _native_matrix(it, c, "dtw_distances_ptrs"), compact)
     else:
         _compact(c, "py:dtw_ndim.distance_matrix[list]",
@@ -196,6 +247,7 @@ def run_c06(it):
                      lambda: _native_matrix(it, c, "dtw_distances_ndim_matrix", layout="matrix"), compact)
             _compact(c, "native:dtw_distances_ndim_matrices",
                      lambda: _native_matrix(it, c, "dtw_distances_ndim_matrices", layout="matrix"), compact)
+            _two_set_routes(it, c, nd, compact)
         _compact(c, "native:dtw_distances_ndim_ptrs", lambda: _native_matrix(it, c, "dtw_distances_ndim_ptrs"), compact)
     # square forms (triangular blocks only: a non-triangular block requires compact=True)
     if it["triu"]:
